@@ -1497,3 +1497,13 @@ class P(Prop):
             for a in range(len(times)):
                 for b in range(len(times)):
                     yield dict(case, a=a, b=b)
+
+
+# ---- tie to the source by translation (tools/py2lean.py -> lean/TracklibVerif/Gen/Track.lean, regenerated on every run)
+P.tie_modules = ["TracklibVerif.Tie.C04"]
+P.theorems = P.theorems + [
+    ("TracklibVerif.Tie.C04", "TV.Tie.C04.tie_getInsertionIndex_exactFuel", "N >= 2, EVERY fuel: the Lean translation of the CURRENT source of Track.__getInsertionIndex (dichotomy while loop with continue/break, the two correction loops, Python negative indexing, 2 ** (int(log N / log 2) - 1) under the contract int(log N / log 2) = ilog2 N) equals the model's three loops searchLoop / fixLeft / fixRight each run with that fuel: same index, IndexError <-> indexErr, out of fuel <-> outOfFuel"),
+    ("TracklibVerif.Tie.C04", "TV.Tie.C04.tie_getInsertionIndex", "for EVERY fuel >= ilog2 N - 1 + N + 3 (the largest of the model's three fuels), whenever the model is not out of fuel, the translated __getInsertionIndex returns the index of the model Seq.insertionIndex and raises IndexError exactly when the model says indexErr (all N, including the N = 0 and N = 1 special cases)"),
+    ("TracklibVerif.Tie.C04", "TV.Tie.C04.tie_getInsertionIndex_total", "with insertionIndex_no_index_error: unconditionally, for every fuel >= ilog2 N - 1 + N + 3 the translated __getInsertionIndex returns the model's index r, 0 <= r <= N (no IndexError, fuel sufficient), on EVERY list of timestamps"),
+    ("TracklibVerif.Tie.C04", "TV.Tie.C04.tie_getInsertionIndex_sorted", "end to end with insertionIndex_spec: on time-sorted timestamps the translated __getInsertionIndex returns the number of timestamps <= ts (< ts on a single observation)"),
+]
